@@ -609,7 +609,7 @@ func (en *engine) totalRun(c *ev.Case, op string, t *typeSpec, outKind int, auto
 		return
 	}
 	e.Stat("total_bind_errors", 1)
-	e.Nontrivial("total", bop, p.bindErr)
+	e.Nontrivial("total", bop, c.ID, strconv.FormatBool(auto), strconv.FormatBool(split)) // error texts are not stable (map order in schema.MultiError)
 	e.Sample("bind-error-"+bop, map[string]any{"error": trim(p.bindErr, 200), "auto": auto, "status": status})
 	if !auto {
 		return
